@@ -8,6 +8,7 @@ package progs
 import (
 	"fmt"
 	"sync"
+	"sync/atomic"
 )
 
 // Prog is one micro-program. Racy says whether a data race is expected.
@@ -526,5 +527,52 @@ var Table = []Prog{
 		for range res {
 		}
 		return "ok"
+	}},
+	{"atomic-publish", false, func() string {
+		// a plain write published by an atomic store and read only after
+		// an atomic load that saw it: ordered, no race
+		var flag int32
+		data := 0
+		done := make(chan int)
+		go func() {
+			if atomic.LoadInt32(&flag) == 1 {
+				done <- data
+			} else {
+				done <- -1
+			}
+		}()
+		data = 42
+		atomic.StoreInt32(&flag, 1)
+		r := <-done
+		return fmt.Sprint(r == 42 || r == -1)
+	}},
+	{"atomic-counter-typed", false, func() string {
+		var n atomic.Int64
+		var wg sync.WaitGroup
+		for i := 0; i < 4; i++ {
+			wg.Add(1)
+			go func() {
+				defer wg.Done()
+				for j := 0; j < 5; j++ {
+					n.Add(1)
+				}
+			}()
+		}
+		wg.Wait()
+		return fmt.Sprint(n.Load())
+	}},
+	{"atomic-flag-does-not-cover-later-write", true, func() string {
+		// the write after the atomic store is not ordered with the
+		// reader's read, whatever the load observes
+		var flag int32
+		data := 0
+		done := make(chan bool)
+		go func() {
+			atomic.LoadInt32(&flag)
+			done <- data >= 0
+		}()
+		atomic.StoreInt32(&flag, 1)
+		data = 1
+		return fmt.Sprint(<-done)
 	}},
 }
